@@ -155,17 +155,12 @@ class Lower:
         # a module-level name bound once to a literal (a named constant) is that literal
         mod, _, name = q.rpartition(".")
         if mod in prog.classes and named_class_constant(prog, prog.classes[mod], name) is not None:
-            return _const_term(named_class_constant(prog, prog.classes[mod], name))
+            return named_class_constant(prog, prog.classes[mod], name)
         m = prog.modules.get(mod)
-        if m is not None and name in m.assigns and q not in CONTRACTED:
-            try:
-                v = ast.literal_eval(m.assigns[name])
-                n_bind = sum(1 for st in m.tree.body for t in (st.targets if isinstance(st, ast.Assign) else [getattr(st, 'target', None)])
-                             if isinstance(t, ast.Name) and t.id == name)
-                if n_bind == 1 and isinstance(v, (int, float, str, bool, tuple, type(None))):
-                    return _const_term(v)
-            except Exception:
-                pass
+        if m is not None and q not in CONTRACTED:
+            v = named_module_constant(prog, m, name)
+            if v is not None:
+                return v
         return G(q)
 
     def e_Attribute(self, n):
@@ -203,7 +198,7 @@ class Lower:
                 if name in c.class_attrs:
                     v = named_class_constant(prog, c, name)
                     if v is not None:
-                        return _const_term(v)
+                        return v
                     break
         # a property that exactly one class of the package defines and that no reference covers: an extracted helper
         if self.scope.inline_depth < 3 and not name.startswith('__'):
@@ -535,19 +530,76 @@ def _has_default(fi, name):
 _NCC = {}
 
 
+def _const_display(x):
+    return x[0] == 'const' or (x[0] == 'tuple' and all(_const_display(y) for y in x[1]))
+
+
+def _literal_term(prog, m, node, depth=0):
+    """Term of a constant expression: literals, displays of constant expressions (tuple / list), unary minus, + - * of
+    integers, and names of other named constants of the same module. None when the expression is anything else."""
+    if depth > 4:
+        return None
+    if isinstance(node, ast.Constant) and isinstance(node.value, (int, float, str, bool, type(None))):
+        return ('const', node.value)
+    if isinstance(node, (ast.Tuple, ast.List)):
+        xs = [_literal_term(prog, m, e, depth + 1) for e in node.elts]
+        return None if any(x is None for x in xs) else ('tuple' if isinstance(node, ast.Tuple) else 'list', tuple(xs))
+    if isinstance(node, ast.UnaryOp) and isinstance(node.op, ast.USub):
+        x = _literal_term(prog, m, node.operand, depth + 1)
+        return ('const', -x[1]) if x is not None and x[0] == 'const' and isinstance(x[1], (int, float)) and not isinstance(x[1], bool) else None
+    if isinstance(node, ast.BinOp) and isinstance(node.op, (ast.Add, ast.Sub, ast.Mult)):
+        a, b = _literal_term(prog, m, node.left, depth + 1), _literal_term(prog, m, node.right, depth + 1)
+        if a is not None and b is not None and a[0] == b[0] == 'const' and all(type(x[1]) is int for x in (a, b)):
+            return ('const', {ast.Add: a[1] + b[1], ast.Sub: a[1] - b[1], ast.Mult: a[1] * b[1]}[type(node.op)])
+        return None
+    if isinstance(node, ast.Name) and m is not None and node.id in m.assigns:
+        return named_module_constant(prog, m, node.id, depth + 1)
+    d = dotted(node)
+    if d and m is not None and isinstance(node, (ast.Attribute, ast.Name)):
+        q = prog.qualify(m, d)              # an alias of something outside the package (sys.maxsize, numpy.nan, ...)
+        if q and q.split('.')[0] != prog.pkg and d.split('.')[0] in m.imports:
+            return ('glob', q)
+    return None
+
+
+def named_module_constant(prog, m, name, depth=0):
+    """Term of a module-level `NAME = <constant expression>` bound exactly once at module level and never rebound
+    (no `global NAME` anywhere in the module, no attribute store `module.NAME = ...` in the package)."""
+    key = (id(prog), m.name, name)
+    if key in _NCC:
+        return _NCC[key]
+    _NCC[key] = None                     # cycle guard
+    res = None
+    if name in m.assigns and not name.startswith('__'):
+        n_bind = 0
+        for n in ast.walk(m.tree):
+            if isinstance(n, ast.Name) and n.id == name and isinstance(n.ctx, (ast.Store, ast.Del)):
+                n_bind += 1
+            elif isinstance(n, ast.Global) and name in n.names:
+                n_bind += 2
+            elif isinstance(n, (ast.FunctionDef, ast.ClassDef, ast.AsyncFunctionDef)) and n.name == name:
+                n_bind += 2
+            elif isinstance(n, ast.arg) and n.arg == name:
+                n_bind += 2             # shadowed by a parameter somewhere: stay symbolic (rare; keeps the rule simple)
+        patched = any(isinstance(n, ast.Attribute) and n.attr == name and isinstance(n.ctx, (ast.Store, ast.Del))
+                      for mm in prog.modules.values() for n in ast.walk(mm.tree))
+        if n_bind == 1 and not patched:
+            res = _literal_term(prog, m, m.assigns[name], depth)
+    _NCC[key] = res
+    return res
+
+
 def named_class_constant(prog, ci, name):
     """The literal a class-level `NAME = literal` stands for, when NAME is a named constant: bound in exactly one class of
     the package, never stored on an instance or a class anywhere, never named by a getattr/hasattr/attrgetter string, and
     read only through self / cls / the class itself (reads the lowering replaces by the literal). None otherwise."""
-    key = (id(prog), ci.qualname, name)
+    key = (id(prog), 'class', ci.qualname, name)
     if key in _NCC:
         return _NCC[key]
     res = None
-    try:
-        v = ast.literal_eval(ci.class_attrs[name])
-    except Exception:
-        v = _NCC
-    ok = v is not _NCC and isinstance(v, (int, float, str, bool, tuple)) and not name.startswith('__') \
+    v = _literal_term(prog, ci.module, ci.class_attrs[name]) if name in ci.class_attrs else None
+    is_field = any(dotted(d.func if isinstance(d, ast.Call) else d) in ('dataclass', 'dataclasses.dataclass') for d in ci.node.decorator_list)
+    ok = v is not None and not is_field and not name.startswith('__') \
         and name not in prog.stored_attr_names() \
         and sum(1 for c in prog.classes.values() if name in c.class_attrs) == 1 \
         and not any(f.name == name for f in prog.functions.values() if f.cls is not None)
@@ -667,12 +719,20 @@ class FuncLower:
             if isinstance(st, (ast.Import, ast.ImportFrom)):
                 continue
             if isinstance(st, ast.Assign):
+                if isinstance(st.value, ast.Call) and len(st.targets) == 1:
+                    k = self._cps_inline(st.value, st.targets[0], rest, lw, eff)
+                    if k is not None:
+                        return k
                 val = lw.e(st.value)
                 for tg in st.targets:
                     eff = self.assign(tg, val, lw, eff)
                 continue
             if isinstance(st, ast.AnnAssign):
                 if st.value is not None:
+                    if isinstance(st.value, ast.Call):
+                        k = self._cps_inline(st.value, st.target, rest, lw, eff)
+                        if k is not None:
+                            return k
                     eff = self.assign(st.target, lw.e(st.value), lw, eff)
                 continue
             if isinstance(st, ast.AugAssign):
@@ -695,6 +755,10 @@ class FuncLower:
                 l1, l2 = lw.clone(), lw.clone()
                 return ('if', c, self.block(list(st.body) + rest, l1, eff), self.block(list(st.orelse) + rest, l2, eff))
             if isinstance(st, ast.Expr):
+                if isinstance(st.value, ast.Call):
+                    k = self._cps_inline(st.value, None, rest, lw, eff)
+                    if k is not None:
+                        return k
                 eff = self.expr_stmt(st.value, lw, eff)
                 continue
             if isinstance(st, ast.Delete):
@@ -799,6 +863,39 @@ class FuncLower:
         if not any(simple_assign(b) for b in st.body) and not any(simple_assign(b) for h in st.handlers for b in h.body):
             return False
         return all(all(simple_assign(b) or isinstance(b, ast.Pass) for b in h.body) and h.name is None for h in st.handlers)
+
+    def _cps_inline(self, n, target, rest, lw, eff):
+        """`x = helper(...)` / `helper(...)` as a statement of its own, where helper is an unspecified repository helper whose
+        body has several paths (guards that raise): each of its returns continues with the rest of the block (an extracted
+        helper is transparent). Exact because the call is the whole statement: nothing of the caller is evaluated between
+        the helper's guards and its return."""
+        if self._in_loop_body:
+            return None
+        try:
+            args, kw = lw._args(n)
+            fn = lw.e(n.func)
+        except Exception:
+            return None
+        t = lw._inline_block(n, fn, args, kw)
+        if t is None or _expr_of_block(t) is not None:
+            return None                 # not a helper, or a plain expression helper (inlined by the expression lowering)
+
+        def shape_ok(x):
+            return x[0] in ('ret', 'raise') or (x[0] == 'if' and shape_ok(x[2]) and shape_ok(x[3]))
+        if not shape_ok(t):
+            return None
+
+        def go(x):
+            if x[0] == 'if':
+                return ('if', x[1], go(x[2]), go(x[3]))
+            if x[0] == 'raise':
+                return ('raise', x[1], tuple(eff) + tuple(x[2]))
+            l = lw.clone()
+            e2 = tuple(eff) + tuple(x[2])
+            if target is not None:
+                e2 = self.assign(target, x[1], l, e2)
+            return self.block(rest, l, e2)
+        return go(t)
 
     def _tail_inline(self, n, lw, eff):
         """`return helper(...)` of an unspecified repository helper whose body has several paths / raises: its block term
@@ -1218,7 +1315,7 @@ def norm(t):
             r = a[1] in [x[1] for x in b[1]]
             return C(r if t[1] == 'In' else not r)
         # membership in a display of constants does not depend on the kind of display (list / tuple / set) nor on the order
-        if t[1] in ('In', 'NotIn') and b[0] in ('list', 'tuple', 'set') and b[1] and all(x[0] == 'const' for x in b[1]) \
+        if t[1] in ('In', 'NotIn') and b[0] in ('list', 'tuple', 'set') and b[1] and all(_const_display(x) for x in b[1]) \
                 and (b[0] != 'tuple' or list(b[1]) != sorted(set(b[1]), key=repr)):
             return ('cmp', t[1], a, ('tuple', tuple(sorted(set(b[1]), key=repr))))
         # comparison of a tuple of terms with a scalar broadcasts (numpy semantics) - used by the bounds kernel
